@@ -1,4 +1,5 @@
 # C07 — an ask resolves exactly once: with its own reply or with a timeout
+import json
 import os
 import re
 
@@ -27,6 +28,13 @@ TRUSTED = [
     "tie T1 (harness/cmd/c07ask): stress runs on the real ActorSystem with real (1 ms - 2 s) timeouts; per ask the ordering of the reply "
     "w.r.t. the deadline is classified from monotonic timestamps (Go timers never fire early) and the observed outcome must be one the "
     "machine allows for that ordering; explored interleavings are those the Go runtime happens to produce",
+    "hand-written machine coq/C07/LifeModel.v of the id counter over the life of an actor context (every consumer of nextChildGuid: "
+    "FutureAsk, typed FutureAsk, AwaitForward, ActorOf without a name; restart = same context; re-creation under the same name = new "
+    "context); tie T3 (harness/translate/c07guid, go/ast, syntactic, package engine/vivid of the tree under test): every occurrence of "
+    "childGuid, every call of nextChildGuid and every creation of an actorContext is extracted to Coq and Instance.v proves by vm_compute "
+    "that they are exactly the machine's (one atomic add-and-fetch of 1 whose result names one address) — accesses through reflection, "
+    "unsafe, or a whole-struct copy/assignment of an actorContext are not seen; tie T1 sub-harness 'life' (harness/cmd/c07ask/life.go): "
+    "scripts with restarts / re-creation on the real ActorSystem, allocated addresses and outcomes compared with the machine's run",
     "sync/atomic sequentially consistent single steps; xsync.MapOf LoadOrStore / LoadAndDelete atomic; Go runtime; Coq kernel + vm_compute",
 ]
 MANIFEST = {
@@ -38,7 +46,14 @@ MANIFEST = {
             "hangs; the reply address is unregistered by the completion. Reply addresses (nextChildGuid + Register + reply routing): ids "
             "are distinct for one sequential asker on the code as written and for any number of concurrent askers on the repaired atomic "
             "counter, hence every future is initialised and completes only with the reply to its own request; for the counter as written "
-            "two concurrent askers get the same address (witness: wrong reply + an ask that never completes). On every run the current "
+            "two concurrent askers get the same address (witness: wrong reply + an ask that never completes). Life of the id source "
+            "(LifeModel): over the whole life of one actor context — any number of restarts, concurrent users, and whichever consumer "
+            "(ask, typed ask, AwaitForward, anonymous child) — every value handed out is fresh, so no two asks (a fortiori no two live "
+            "ones) share a reply address, every future is initialised and resolves only with its own reply; the counter accesses of the "
+            "tree under test are extracted (go/ast) and proved to be the machine's on every run; a store on the restart path, and the "
+            "re-creation of an actor under the same name while an ask is pending (open finding), are refuted by witnesses. On every run "
+            "scripts with restarts and re-creations drive one asker on the real system (addresses, outcomes and second reads compared "
+            "with the machine; monitors: address reused among live asks, foreign reply, never resolved, resolved twice). On every run the current "
             "future.go is instrumented and hundreds of random (thorough: + depth-first, preemption bound 2) schedules of {reply, error "
             "reply, second reply, timeout, Close, Forward, Result} are replayed step by step in Coq; a stress harness drives the real "
             "ActorSystem (1/2/8/16 askers x 6 target behaviours x system / actor context / typed helper) and checks per ask: completes "
@@ -72,6 +87,47 @@ def source_facts(ctx):
         ctx.notes.append("future.go no longer contains the statement(s) %s: their scheduler steps are missing from the T2 log" % missing)
 
 
+def t3(ctx):
+    """Tie T3: extract every access to the id counter from the CURRENT engine/vivid, emit Extracted.v + Instance.v, compile them."""
+    names = ["C07_counter_source_facts", "C07_whole_life_of_this_source"]
+    ctx.obligations += len(names)
+    d = os.path.join(ctx.scratch, "t3")
+    os.makedirs(d, exist_ok=True)
+    try:
+        exe = vlib.go_build(ctx, "./translate/c07guid", name="c07guid")
+    except vlib.CheckError as e:
+        ctx.proof_errors.append("T3: cannot build harness/translate/c07guid: %s" % str(e)[-800:])
+        return
+    rc, o, e, _ = vlib.sh([exe, "-repo", vlib.REPO, "-out", d], timeout=120)
+    if rc != 0:
+        ctx.proof_errors.append("T3: the id counter of actorContext cannot be read from %s/engine/vivid: %s" % (vlib.REPO, (o + e)[-800:]))
+        return
+    facts = json.loads(o.strip().splitlines()[-1])
+    ctx.extra["t3_counter_accesses"] = facts
+    out = ""
+    for f in ("Extracted.v", "Instance.v"):
+        rc, o2, e2, _ = vlib.sh(["coqc", "-Q", vlib.COQ, "MV", "-Q", d, "", os.path.join(d, f)], cwd=d, timeout=900)
+        if rc != 0:
+            odd = [a for a in facts["accesses"] if not (a["kind"] == "add1" and a["fn"] == "nextChildGuid")]
+            odd += [c for c in facts["consumers"] if c["use"] == "other"]
+            ctx.proof_errors.append(
+                "T3: the accesses to actorContext.childGuid in the tree under test are not the ones of the machine MV.C07.LifeModel "
+                "(single atomic add-and-fetch of 1 in nextChildGuid, each result naming one address): %s; creators of contexts: %s. "
+                "The whole-life theorems do not apply to this source (for a store on the restart path see C07_counter_reset_on_restart_refuted). %s" %
+                (json.dumps(odd), facts["creators"], (o2 + e2)[-400:].replace("\n", " ")))
+            return
+        out += o2
+    bad = vlib.FORBIDDEN.search(vlib.strip_comments(open(os.path.join(d, "Extracted.v")).read() + open(os.path.join(d, "Instance.v")).read()))
+    closed = len(re.findall(r"Closed under the global context", out))
+    if bad or closed != len(names):
+        ctx.proof_errors.append("T3: instance theorems not closed under the global context:\n" + out[-800:])
+        return
+    for n in names:
+        ctx.theorems.append(n)
+        ctx.axioms[n] = []
+        ctx.discharged += 1
+
+
 def check(ctx):
     ctx.trusted += TRUSTED
     try:
@@ -82,8 +138,10 @@ def check(ctx):
         ctx.proof_errors.append("forbidden constructs: %s" % bad[:5])
     if vlib.coq_make(ctx, ["Lib", "C07"]):
         vlib.coq_properties(ctx, "C07/Properties.v")
+        t3(ctx)
     source_facts(ctx)
-    # T1 first: the stress harness on the real system (monitors decide; Coq recomputes the allowed outcomes)
+    # T1 first: the stress harness on the real system (monitors decide; Coq recomputes the allowed outcomes); the binary
+    # writes two summaries: "ask" (stress) and "life" (scripts with restarts / re-creation, see harness/cmd/c07ask/life.go)
     b1 = vlib.go_build(ctx, "c07ask")
     vlib.run_harness(ctx, b1, "ask", timeout=1500)
     # T2: instrumented current source of the future process under the controlled scheduler
@@ -91,7 +149,8 @@ def check(ctx):
     vlib.run_harness(ctx, b2, "fut", timeout=1500)
     if ctx.tier == "thorough":
         vlib.coqchk(ctx, ["MV.C07.Properties"])
-    return vlib.finish(ctx, "make -C coq && coqc C07/Properties.v (Print Assumptions per theorem); read nextChildGuid of the tree under test; "
+    return vlib.finish(ctx, "make -C coq && coqc C07/Properties.v (Print Assumptions per theorem); go run harness/translate/c07guid && coqc Extracted.v Instance.v "
+                            "(counter accesses of the tree under test = the machine's); read nextChildGuid of the tree under test; "
                             "go build harness/cmd/c07ask against the tree + run (T1); instrument + build current future.go (t2_build) + run (T2); "
                             "coqc <outcome-table and schedule-replay shards> (vm_compute)", "DESIGN.md §6 C07", search=vlib.default_search)
 
@@ -106,4 +165,4 @@ def replay(ctx, path):
         if err.strip():
             print(err.strip())
         return rc
-    return vlib.standard_replay(ctx, {"ask": "c07ask"}, path)
+    return vlib.standard_replay(ctx, {"ask": "c07ask", "life": "c07ask"}, path)
